@@ -161,6 +161,58 @@ def sampling_oracles_spec(rng):
     return cfg, None
 
 
+def key_order_case(rng):
+    """two workers, a space that grows inside the trials in an order that depends on the branch: the values dict of a stored
+    trial and the dict of a later sample list the same entries in different orders. The search runs until the 6
+    configurations are exhausted, so every configuration is sampled again: none may be started twice."""
+    import tempfile, shutil, warnings
+    import keras_tuner as kt
+    from keras_tuner.engine import hyperparameters as hpm
+    from keras_tuner.tuners import randomsearch, hyperband
+    warnings.filterwarnings("ignore")
+    hps = hpm.HyperParameters(); hps.Choice("a", [0, 1])
+    d = tempfile.mkdtemp(prefix="ktv06k_")
+    kind = rng.choice(["random", "random", "hyperband"])
+    try:
+        if kind == "random":
+            o = randomsearch.RandomSearchOracle(objective=kt.Objective("score", "min"), max_trials=30, hyperparameters=hps, seed=rng.randint(1, 10 ** 6))
+        else:
+            o = hyperband.HyperbandOracle(objective=kt.Objective("score", "min"), max_epochs=2, factor=2, hyperband_iterations=6, hyperparameters=hps, seed=rng.randint(1, 10 ** 6))
+        o._set_project_dir(d, "p"); o._display.verbose = 0
+        first = rng.choice([0, 1])
+
+        def build(hp):
+            a = hp.values.get("a", 0)
+            if a == first:
+                with hp.conditional_scope("a", [first]):
+                    hp.Int("b", 0, 1)
+                hp.Int("c", 0, 1)
+            else:
+                hp.Int("c", 0, 1)
+        held = {}; W = rng.choice([2, 3]); started = {}
+        for _ in range(400):
+            w = "w%d" % rng.randrange(W)
+            if w in held and rng.random() < 0.6:
+                t = held.pop(w); build(t.hyperparameters)
+                o.update_trial(t.trial_id, {"score": float(rng.randint(0, 9))}); t.status = "COMPLETED"; o.end_trial(t)
+            elif w not in held:
+                before = {i: {k: v for k, v in tr.hyperparameters.values.items() if not k.startswith("tuner/")} for i, tr in o.trials.items()}
+                n0 = len(o.trials)
+                t = o.create_trial(w)
+                if t.status == "RUNNING":
+                    held[w] = t
+                    mine = {k: v for k, v in t.hyperparameters.values.items() if not k.startswith("tuner/")}
+                    if len(o.trials) > n0 and "tuner/trial_id" not in t.hyperparameters.values:
+                        for i, v in before.items():
+                            if v == mine and len(v) >= 2:
+                                return "%s oracle: trial %s was started with the values %r that trial %s already carries (entries discovered in another order)" % (kind, t.trial_id, mine, i)
+                elif t.status == "STOPPED" and not held:
+                    break
+        return None
+    finally:
+        shutil.rmtree(d, ignore_errors=True)
+
+
 HEADER = """From stdpp Require Import gmap list.
 From Coq Require Import ZArith.
 From KT Require Import Lifecycle Space Discover Rand.
@@ -222,6 +274,12 @@ def run(ctx):
             distinct += 1
         seen.add(key)
     stats["t_random_s"] = round(_t.time() - _t0, 1); _t0 = _t.time()
+    for j in range(ctx.n(40, 600)):
+        msg = key_order_case(ctx.rng)
+        stats["key_order_histories"] = stats.get("key_order_histories", 0) + 1
+        if msg:
+            failures.append(Failure("violation", "C06/duplicate-start-order", msg, {"note": "regenerated from the run seed"}))
+            break
     for j in range(ctx.n(10, 300)):
         cfg, msg = sampling_oracles_spec(ctx.rng)
         stats["sampling_histories"] += 1
